@@ -55,6 +55,7 @@ func e2Session(args []string) int {
 	big := fs.Bool("big", false, "log more than the 4 MiB WAL buffer between rotations (async)")
 	bigSync := fs.Bool("bigsync", false, "a few values larger than the 4 MiB WAL buffer, so that one synchronous append needs several write calls")
 	nkeys := fs.Int("keys", 8, "")
+	directSync := fs.Bool("directsync", false, "the second session asks for the direct-I/O WAL without the async option")
 	directWAL := fs.Bool("directwal", false, "the big asynchronous session uses the direct-I/O WAL writer")
 	_ = fs.Parse(args)
 	f, err := os.OpenFile(*ctlPath, os.O_WRONLY|os.O_CREATE|os.O_APPEND, 0644)
@@ -88,6 +89,12 @@ func e2Session(args []string) int {
 			WriteBuf:  gen.Pick(r, uint64(32), 64, 256, 4<<20),
 			Live:      true, IntervalMs: gen.Pick(r, 1, 2, 5),
 			Async: *mode == "async",
+		}
+		// sync mode: one session in six asks for the direct-I/O WAL WITHOUT the async option. Whatever the library makes of
+		// that combination on this file system (refuse every write, or fall back to the buffered synchronous writer), what
+		// it acknowledges must survive a kill
+		if *directSync && s == 1 {
+			o.DirectIOWAL = true
 		}
 		nops := 40 + r.Intn(110)
 		// c17: half of the sessions run without the background compactor and contain ONE Put whose WAL append fails
@@ -472,6 +479,7 @@ type e2Op struct {
 
 // e2State follows the markers of a session log.
 type e2State struct {
+	refusing bool // the session's WAL writer refuses synchronous appends: errors are expected, acknowledgements still bind
 	faulted  bool // a WAL write failed in this session: later errors are expected until the next Open
 	ops      []e2Op
 	model    map[string]*string // state after all ACKed, successful operations (hex key -> hex value)
@@ -534,7 +542,7 @@ func (s *e2State) marker(m string) {
 		if op.Err && op.Kind == "faultput" {
 			s.faulted = true // the WAL writer is in its error state until the next Open
 		}
-		if op.Err && op.Kind != "badput" && !s.faulted {
+		if op.Err && op.Kind != "badput" && !s.faulted && !s.refusing {
 			s.opErrUnexpected = append(s.opErrUnexpected, m)
 		}
 		if !op.Err {
@@ -570,6 +578,8 @@ func (s *e2State) marker(m string) {
 		}
 	case "SESSION":
 		s.session = m
+		// a synchronous session on a direct-I/O WAL may refuse its writes (documented limitation of that writer)
+		s.refusing = strings.Contains(m, "async=false directIOWAL=true")
 	case "FATAL":
 		s.fatal = m
 	case "END":
@@ -827,6 +837,7 @@ type e2Config struct {
 	bigSync   bool   // sync WAL with values larger than the WAL buffer
 	mode      string // sync | async | c17
 	big       bool
+	directSync bool // sync mode: the second session is opened with the direct-I/O WAL option (and without the async option)
 	directWAL bool // the big asynchronous session logs through the direct-I/O WAL writer (database directory on a real disk)
 	seed      int64
 	nkeys     int
@@ -843,7 +854,7 @@ func e2RunSession(c *fw.Case, cfg e2Config) *e2Summary {
 	_ = os.MkdirAll(dbdir, 0755)
 	ctl := filepath.Join(work, "ctl")
 	strSize := 300000
-	if cfg.big || cfg.bigSync {
+	if cfg.big || cfg.bigSync || cfg.directSync {
 		strSize = 9000000
 	}
 	args := []string{"e2session", "-dir", dbdir, "-ctl", ctl, "-mode", cfg.mode, "-seed", fmt.Sprint(cfg.seed), "-keys", fmt.Sprint(cfg.nkeys)}
@@ -855,6 +866,9 @@ func e2RunSession(c *fw.Case, cfg e2Config) *e2Summary {
 	}
 	if cfg.directWAL {
 		args = append(args, "-directwal")
+	}
+	if cfg.directSync {
+		args = append(args, "-directsync")
 	}
 	logPath, res := e2Trace(work, "trace.log", 240, strSize, args...)
 	sum := &e2Summary{byPhase: map[string]int{}, verdicts: map[string]*e2Verdict{}, verdictCount: map[string]int{}}
